@@ -154,6 +154,7 @@ func c0102(rep *ev.Reporter, tier string, judge func(c *Case, tr *hx.Trace, w *r
 	}
 	RunFamily(rep, gen, 1500, bud, judge)
 	rep.Coverage["cases_by_location"] = locCount
+	rep.Coverage["wide_program_runs"] = wideFamily(rep, rep.ID, judge)
 	rep.Assumptions = append(rep.Assumptions,
 		"fact states in which two names or two syntactic paths denote ONE Go object are included as a family of their own (coarse signatures): invalidation is by variable name, the other-path cells are a known finding, the same-path cells are controls; aliasing through selectors of one container is part of the main matrix",
 		"fact methods in conditions are pure functions of their arguments; hidden receiver state changes are announced with Forget/Changed",
